@@ -62,6 +62,12 @@ def returns(ctx):
     n = ctx.p["n"]
     v = _vals(ctx, n)
     dur = ctx.flt("duration_days", 1, 3650)
+    # three regimes only to obtain non-degenerate models for the witness-only statistics (regime 2 is unconstrained)
+    regime = ctx.choose("regime", 3)
+    if regime == 0:
+        ctx.assume(sand(*[v[i + 1] >= v[i] * (1.01 + 0.01 * i) for i in range(n - 1)]))
+    elif regime == 1:
+        ctx.assume(sand(*[(v[i + 1] <= v[i] * 0.97) if i % 2 else (v[i + 1] >= v[i] * (1.02 + 0.01 * i)) for i in range(n - 1)]))
     s = _series(ctx, v)
     rr = c.return_rate_series(s)
     rm = c.return_multiple(s)
